@@ -23,12 +23,14 @@ import (
 	"hash/fnv"
 	"os"
 	"path/filepath"
+	"runtime"
 	"runtime/debug"
 	"sort"
 	"strconv"
 	"strings"
 	"sync"
 	"testing"
+	"time"
 
 	"pgregory.net/rapid"
 )
@@ -177,6 +179,7 @@ func Check(t *testing.T, cfg Cfg, prop func(r *Run)) {
 // process killed by the race detector or by a fatal runtime error leaves its input behind.
 func (r *Run) Case(c any) {
 	r.caseVal = c
+	r.armWatchdog()
 	if os.Getenv("VERIF_TRACK_CASE") == "1" {
 		if dir := os.Getenv("VERIF_FAILDIR"); dir != "" {
 			raw, _ := json.Marshal(c)
@@ -204,7 +207,52 @@ func (r *Run) Failf(format string, a ...any) {
 	r.T.Fatalf("%s", msg)
 }
 
+// Watchdog: with VERIF_CASE_TIMEOUT_S=N a case that has not finished N seconds after it was registered is taken for a
+// deadlock / livelock of the code under test: the case is left behind as the in-flight file, all goroutine stacks go
+// to the log and the process exits with status 67 (the driver reports a violation with that case as the replay).
+var (
+	wdMu    sync.Mutex
+	wdTimer *time.Timer
+)
+
+func (r *Run) armWatchdog() {
+	n, err := strconv.Atoi(os.Getenv("VERIF_CASE_TIMEOUT_S"))
+	if err != nil || n <= 0 {
+		return
+	}
+	wdMu.Lock()
+	defer wdMu.Unlock()
+	if wdTimer != nil {
+		wdTimer.Stop()
+	}
+	name, c := r.cfg.Name, r.caseVal
+	wdTimer = time.AfterFunc(time.Duration(n)*time.Second, func() {
+		msg := fmt.Sprintf("the case did not finish within %d s: deadlock or livelock (goroutine stacks in the shard log)", n)
+		if dir := os.Getenv("VERIF_FAILDIR"); dir != "" {
+			raw, _ := json.Marshal(c)
+			doc := map[string]any{"property": st.Property, "test": name, "case": json.RawMessage(raw), "msg": msg}
+			b, _ := json.Marshal(doc)
+			i, _ := Shard()
+			os.WriteFile(filepath.Join(dir, fmt.Sprintf("inflight.%d.json", i)), b, 0o644)
+		}
+		buf := make([]byte, 1<<20)
+		buf = buf[:runtime.Stack(buf, true)]
+		fmt.Fprintf(os.Stderr, "\nVERIF-WATCHDOG: %s\n%s\n", msg, buf)
+		os.Exit(67)
+	})
+}
+
+func disarmWatchdog() {
+	wdMu.Lock()
+	if wdTimer != nil {
+		wdTimer.Stop()
+		wdTimer = nil
+	}
+	wdMu.Unlock()
+}
+
 func (r *Run) finish() {
+	disarmWatchdog()
 	if p := recover(); p != nil {
 		// rapid's own control-flow panics (Fatalf, Skip, invalid data) pass through
 		if !isRapidPanic(p) {
